@@ -13,7 +13,7 @@ def povm_is_identity_sum_rtol : Rat := (mkRat (1) 100000)
 /-- quara/objects/gate.py:581 `np.allclose(hs[0], expected_row, atol=atol, rtol=0.0)` -/
 def gate_is_tp_row_rtol : Rat := (0 : Rat)
 
-/-- quara/objects/gate.py:600 `np.isclose(trace_after_mapped, trace_before_mapped, atol=atol, rtol=0.0)` -/
+/-- quara/objects/gate.py:599 `np.isclose(trace_after_mapped, trace_before_mapped, atol=atol, rtol=0.0)` -/
 def gate_is_tp_trace_rtol : Rat := (0 : Rat)
 
 /-- quara/utils/matrix_util.py:101 `allclose(matrix, adjoint, atol=atol, rtol=0.0)` -/
@@ -24,5 +24,40 @@ def mutil_is_psd_eig_rtol : Rat := (0 : Rat)
 
 /-- quara/settings.py `Settings.__atol` -/
 def settings_atol : Rat := (mkRat (1) 10000000000000)
+
+/-! decision wiring (boolean skeletons of the source; operands are parameters) -/
+
+/-- quara/objects/qoperation.py:QOperation.is_physical:242 `return self.is_eq_constraint_satisfied(atol_eq_const) and self.is_ineq_constraint_satisfied(atol_ineq_const)` — `eq` / `ineq` are the sub-verdicts as functions of the
+(optional) tolerance handed to them -/
+def is_physical (eq ineq : Option Rat → Bool) (atol_eq_const atol_ineq_const : Option Rat) : Bool :=
+  (eq atol_eq_const && ineq atol_ineq_const)
+
+/-- quara/objects/state.py:State.__init__:101 `if self.is_physicality_required and (not self.is_physical()): raise ValueError` -/
+def state_ctor_raises (required physical : Bool) : Bool :=
+  (required && (!physical))
+
+/-- quara/objects/povm.py:Povm.__init__:109 `if self.is_physicality_required and (not self.is_physical()): raise ValueError` -/
+def povm_ctor_raises (required physical : Bool) : Bool :=
+  (required && (!physical))
+
+/-- quara/objects/gate.py:Gate.__init__:100 `if self.is_physicality_required and (not self.is_physical()): raise ValueError` -/
+def gate_ctor_raises (required physical : Bool) : Bool :=
+  (required && (!physical))
+
+/-- quara/objects/mprocess.py:MProcess.__init__:105 `if self.is_physicality_required and (not self.is_physical()): raise ValueError` -/
+def mprocess_ctor_raises (required physical : Bool) : Bool :=
+  (required && (!physical))
+
+/-- quara/objects/elemental_system.py:ElementalSystem.__init__:38 the orthonormal-Hermitian-identity-first flag of one subsystem -/
+def elemental_flag (is_normal is_orthogonal is_hermitian is_0thpropI : Bool) : Bool :=
+  (is_normal && is_orthogonal && is_hermitian && is_0thpropI)
+
+/-- quara/objects/composite_system.py:CompositeSystem.__init__:65 `self._is_orthonormal_hermitian_0thprop_identity = all(is_orthonormal_hermitian_0thpropIs)` -/
+def composite_flag (flags : List Bool) : Bool :=
+  flags.all id
+
+/-- quara/objects/gate.py:577 gate.is_tp takes the first-row test exactly when this is true -/
+def is_tp_first_row_branch (c_sys_flag : Bool) : Bool :=
+  c_sys_flag
 
 end QGen.C01
